@@ -36,7 +36,7 @@ from vlib import core as V
 from vlib import kernels as K
 
 ID = 'C13'
-LEVEL_TEXT = ("Theorems (Props/C13.v, 38, all closed under the global context) about a hand model of Survey "
+LEVEL_TEXT = ("Theorems (Props/C13.v, 51, all closed under the global context) about a hand model of Survey "
               "with explicit array references (two heaps, surveys hold indices; sharing and in-place updates "
               "are modelled). For ALL operation histories (add_noise with any parameters and any noise, "
               "select, copy, to_dict/from_dict, save/load, setters on other surveys) noise floor, relative "
@@ -50,7 +50,17 @@ LEVEL_TEXT = ("Theorems (Props/C13.v, 38, all closed under the global context) a
               "repeated or unknown names are rejected and change nothing; remove_empty removes exactly the "
               "names without a finite chosen datum; select o select = direct select. add_noise: complete "
               "equation for every entry of the written array (cut -> NaN, no std -> unchanged, NaN std -> "
-              "NaN, else old + noise) and every other data array untouched. All shapes, layouts, unbounded.")
+              "NaN, else old + noise) and every other data array untouched. All shapes, layouts, unbounded. "
+              "Round 6 (Model/SurveyFinite.v): the state also holds the MEMOISED finite mask of every survey "
+              "(Survey.isfinite / finite_data()), histories also contain read-only queries (isfinite, "
+              "finite_data, size, count, misfit), `data.observed[...] = array` and compute(observed=True). "
+              "For ALL such histories: a query changes nothing in the survey machine, no other operation "
+              "reads or writes the memo, the state reached equals the one reached with all queries erased "
+              "from any memo; the misfit is a function of the CURRENT observed / synthetic / std^2 arrays "
+              "only and equals the half sum over the mask recomputed from the current observed data; it "
+              "does not consult the memo (the memo is provably NOT always the current mask, and a misfit "
+              "summed through it differs: misfit_through_memo_refuted); settings frame and invariants "
+              "extended to the new operations.")
 LEVEL_NOTE = ("The model is hand-written; it is tied to the source by a differential correspondence on "
               "generated histories (state compared after every operation, by label and positionally, exact "
               "rational equality for stored values, alias structure via np.shares_memory) including an "
@@ -62,7 +72,13 @@ LEVEL_NOTE = ("The model is hand-written; it is tied to the source by a differen
               "outside the domain. numpy broadcasting, xarray .sel/.copy and h5py/npz/json storage are "
               "inside the correspondence, not verified. No theorem is partial any more; the composition "
               "'misfit of a re-ordered survey = misfit of the original' is the conjunction of "
-              "select_subcube_by_label and misfit_axes_perm_invariant, not one statement.")
+              "select_subcube_by_label and misfit_axes_perm_invariant, not one statement. "
+              "Simulation.misfit is run as the real property code on a stub whose `data` is survey.data (as "
+              "Simulation.data) and whose fields count as computed; 'residual'/'weights' are removed "
+              "afterwards as Simulation.clean('computed') does, so the weights/misfit caches of one "
+              "Simulation object between two misfit calls are outside the model. That Survey.isfinite / "
+              "finite_data() themselves answer with the memoised (possibly stale) mask is modelled as it is "
+              "in the code and compared, but is not part of the property text.")
 TECHNIQUE = ("Coq proof (induction over operation histories, Permutation, ring/field) about a hand model "
              "+ differential correspondence (vm_compute on Q) against emg3d.Survey / Simulation.misfit")
 DESIGN_REF = "DESIGN.md section 6 C13"
@@ -238,6 +254,65 @@ def alias_labels_model(svs):
 
 
 # ------------------------------------------------------------ implementation
+QUERIES = ('isfinite', 'finite_data', 'size', 'count', 'misfit')
+QUERY_COQ = {'isfinite': 'QIsFinite', 'finite_data': 'QFiniteData', 'size': 'QSize',
+             'count': 'QCount', 'misfit': 'QMisfit'}
+
+
+class _SimStub:
+    """What Simulation.misfit / Simulation.compute need from a Simulation.  As in
+    the real class, `data` IS `survey.data` (Simulation.data is a shortcut
+    property), so whatever the code reads through `self.survey` (finite_data(),
+    isfinite, standard_deviation, ...) and through `self.data` is the same
+    data set; the fields are taken as computed."""
+    layered = False
+
+    def __init__(self, survey):
+        self.survey = survey
+        self._misfit = None
+        self._computed = True
+
+    @property
+    def data(self):
+        return self.survey.data
+
+    def _compute(self, *a, **k):     # the solver runs are not part of C13
+        return None
+
+    def compute(self, *a, **k):
+        return None
+
+
+def impl_misfit(sv):
+    """Simulation.misfit (the real property code) of a fresh simulation on survey
+    `sv`; afterwards 'residual'/'weights' are removed from the data set, as
+    Simulation.clean('computed') does."""
+    emg3d = _emg3d()
+    stub = _SimStub(sv)
+    try:
+        with warnings.catch_warnings():
+            warnings.simplefilter('ignore')
+            return float(emg3d.Simulation.misfit.fget(stub))
+    finally:
+        for key in ('residual', 'weights'):
+            if key in sv.data.keys():
+                del sv.data[key]
+
+
+def impl_misfit_enum(sv):
+    try:
+        return impl_misfit(sv)
+    except ValueError:
+        return 'ValueError'
+    except Exception as e:       # noqa: BLE001 - reported as a disagreement, never a harness crash
+        return 'Error:' + type(e).__name__
+
+
+def mask_to_nested(m):
+    m = np.asarray(m)
+    return [[[int(bool(x)) for x in r] for r in p] for p in m.tolist()]
+
+
 class Impl:
     """Runs operations on real emg3d.Survey objects and dumps their state."""
 
@@ -350,6 +425,26 @@ class Impl:
                         s.to_file(fn, verb=0)
                         new = emg3d.Survey.from_file(fn, verb=0)
                     self.surveys.append(new)
+                elif kind == 'query':
+                    w = o['what']
+                    if w == 'isfinite':
+                        return ('query', mask_to_nested(s.isfinite)), None
+                    if w == 'finite_data':
+                        return ('query', [cplx_to_cell(z) for z in np.asarray(s.finite_data()).ravel()]), None
+                    if w == 'size':
+                        return ('query', int(s.size)), None
+                    if w == 'count':
+                        return ('query', int(s.count)), None
+                    if w == 'misfit':
+                        return ('query', impl_misfit_enum(s)), None
+                    raise RuntimeError('unknown query ' + w)
+                elif kind == 'set_obs':
+                    # explicit new observations, assigned in place
+                    s.data.observed[...] = nested_to_arr(o['val'], True)
+                elif kind == 'obs_from_syn':
+                    # the real Simulation.compute(observed=True, add_noise=False) on a stub
+                    # whose solver does nothing: data['observed'] = data['synthetic'].copy()
+                    emg3d.Simulation.compute(_SimStub(s), observed=True, add_noise=False)
                 else:
                     raise RuntimeError('unknown op ' + kind)
         except Exception as e:       # noqa: BLE001 - mapped to an enum
@@ -436,6 +531,13 @@ class Impl:
                     d[nm] = None
             if 'standard_deviation' in keys:
                 arrays.append(((si, 'std'), s.data['standard_deviation'].data))
+            # every memoised finite mask found on the survey object (any attribute that
+            # holds a boolean array of the data shape), not a particular name
+            memo = None
+            for an, av in sorted(vars(s).items()):
+                if isinstance(av, np.ndarray) and av.dtype == bool and av.shape == tuple(s.shape):
+                    memo = mask_to_nested(av) if memo is None else memo
+            d['memo'] = memo
             out.append(d)
         labels = []
         for n, (me, a) in enumerate(arrays):
@@ -465,12 +567,7 @@ class Impl:
                 sd2 = None if std is None else np.asarray(std.data, dtype=float) ** 2
                 mis = None
                 if 'synthetic' in s.data.keys():
-                    stub = types.SimpleNamespace(_misfit=None, _computed=True,
-                                                 data=s.data.copy(), survey=s)
-                    try:
-                        mis = float(emg3d.Simulation.misfit.fget(stub))
-                    except ValueError:
-                        mis = 'ValueError'
+                    mis = impl_misfit_enum(s)
             res.append((sd2, mis))
         return res
 
@@ -631,12 +728,54 @@ def gen_name_list(rng, pool, malformed):
     return l, ('permuted' if l != sorted(l) else 'ascending')
 
 
+def _dy_nz(rng):
+    while True:
+        v = [K.dy(rng), K.dy(rng) if rng.random() < 0.8 else 0.0]
+        if v[0] != 0.0 or v[1] != 0.0:
+            return v
+
+
+def gen_set_obs(rng, sv, s, how):
+    """new observations for survey object `sv`: 'fill' (every gap filled, old values
+    kept), 'move' (fresh values, fresh NaN pattern), 'more' (some finite data
+    become gaps), 'badshape' (one axis too long: rejected by numpy)"""
+    cur = np.asarray(sv.data.observed.data)
+    n1, n2, n3 = cur.shape
+    if how == 'badshape':
+        val = [[[_dy_nz(rng) for _ in range(n3)] for _ in range(n2 + 1)] for _ in range(n1)]
+        return {'op': 'set_obs', 's': s, 'val': val, 'how': how}
+    val = []
+    for i in range(n1):
+        val.append([])
+        for j in range(n2):
+            val[-1].append([])
+            for k in range(n3):
+                c = cur[i, j, k]
+                old = None if np.isnan(c) else [float(c.real), float(c.imag)]
+                if how == 'fill':
+                    x = old if old is not None else _dy_nz(rng)
+                elif how == 'more':
+                    x = None if (old is None or rng.random() < 0.4) else old
+                else:
+                    x = None if rng.random() < 0.3 else _dy_nz(rng)
+                val[-1][-1].append(x)
+    return {'op': 'set_obs', 's': s, 'val': val, 'how': how}
+
+
 def gen_op(rng, impl, case, n_setters_first, malformed):
     """draw the next operation given the current implementation state"""
     nsv = len(impl.surveys)
     s = rng.randrange(nsv) if rng.random() < 0.7 else nsv - 1
     sv = impl.surveys[s]
     shape = list(sv.shape)
+    u = rng.random()
+    if u < 0.10:        # read-only queries between the data changes
+        return {'op': 'query', 's': s, 'what': rng.choice(QUERIES)}
+    if u < 0.15:        # explicit new observations (in place)
+        return gen_set_obs(rng, sv, s, rng.choice(['fill', 'move', 'more', 'move']) if not
+                           (malformed and rng.random() < 0.4) else 'badshape')
+    if u < 0.17:        # compute(observed=True, add_noise=False)
+        return {'op': 'obs_from_syn', 's': s}
     r = rng.random()
     if malformed and rng.random() < 0.08:
         s = nsv + 1 if False else s
@@ -753,7 +892,20 @@ def coq_op(o, extra):
     raise ValueError(k)
 
 
-COQ_HEADER = K.CASE_HEADER + ("From V Require Import Model.SurveyMachine Model.SurveyMachineExec.\n"
+def coq_xop(o, extra):
+    s = f"{int(o['s'])}%nat"
+    k = o['op']
+    if k == 'query':
+        return f"XQuery {s} {QUERY_COQ[o['what']]}"
+    if k == 'set_obs':
+        return f"XSetObs {s} {coq_cube(arr_to_cells(nested_to_arr(o['val'], True)))}"
+    if k == 'obs_from_syn':
+        return f"XObsFromSyn {s}"
+    return f"XBase ({coq_op(o, extra)})"
+
+
+COQ_HEADER = K.CASE_HEADER + ("From V Require Import Model.SurveyMachine Model.SurveyMachineExec "
+                              "Model.SurveyFinite.\n"
                               "Local Open Scope Z_scope.\n")
 
 
@@ -765,14 +917,14 @@ def coq_history(tag, case, extras):
     syn = arr_to_cells(nested_to_arr(case['synthetic'], True))
     lines = [
         f"Definition offt_{tag} : list (Z * Z * Q) := {offt}.",
-        f"Definition w0_{tag} : qworld := mkW [] [{coq_cube(obs)}; {coq_cube(syn)}] "
+        f"Definition w0_{tag} : qxworld := mkX (mkW [] [{coq_cube(obs)}; {coq_cube(syn)}] "
         f"[mkS {coq_zlist(range(1, ns + 1))} {coq_zlist(range(1, nr + 1))} "
-        f"{coq_zlist(range(1, nq + 1))} 0%nat [(0%Z, 1%nat)] ANone ANone None None None].",
-        f"Definition ops_{tag} : list (@op Q) := [" +
-        ';\n  '.join(coq_op(o, e) for o, e in zip(case['ops'], extras)) + "].",
-        f"Eval vm_compute in d_trace (trace qltb (off_tab offt_{tag}) false ops_{tag} w0_{tag}).",
-        f"Eval vm_compute in d_final (run qltb (off_tab offt_{tag}) false ops_{tag} w0_{tag}).",
-        f"Eval vm_compute in d_trace (trace qltb (off_tab offt_{tag}) true ops_{tag} w0_{tag}).",
+        f"{coq_zlist(range(1, nq + 1))} 0%nat [(0%Z, 1%nat)] ANone ANone None None None]) [].",
+        f"Definition ops_{tag} : list (@xop Q) := [" +
+        ';\n  '.join(coq_xop(o, e) for o, e in zip(case['ops'], extras)) + "].",
+        f"Eval vm_compute in d_xtrace (xtrace qltb (off_tab offt_{tag}) false ops_{tag} w0_{tag}).",
+        f"Eval vm_compute in d_xfinal (xrun qltb (off_tab offt_{tag}) false ops_{tag} w0_{tag}).",
+        f"Eval vm_compute in d_xtrace (xtrace qltb (off_tab offt_{tag}) true ops_{tag} w0_{tag}).",
     ]
     return '\n'.join(lines) + '\n'
 
@@ -865,6 +1017,31 @@ def check_noise_structure(o, extra, sd_model):
     return None
 
 
+def diff_query(o, iout, tag, xinf):
+    """answer of a read-only query: implementation vs model (None = agree)"""
+    qk, qmask, qcells, qnum, qmis = xinf[:5]
+    if iout[0] != 'query' or tag != 3:
+        return f'query: impl outcome {iout[:1]}, model outcome tag {tag}'
+    v, w = iout[1], o['what']
+    if w == 'isfinite':
+        return None if v == qmask else f'isfinite: impl {v} model {qmask}'
+    if w == 'finite_data':
+        mc = [m_cell(x) for x in qcells]
+        return None if v == mc else (f'finite_data(): impl {len(v)} values, model {len(mc)} values, '
+                                     f'first difference at {next((i for i, (a, b) in enumerate(zip(v, mc)) if a != b), min(len(v), len(mc)))}')
+    if w in ('size', 'count'):
+        return None if v == qnum else f'{w}: impl {v} model {qnum}'
+    if w == 'misfit':
+        if qmis is None:
+            return None if v == 'ValueError' else f'misfit: impl {v!r}, model None (ValueError: no std)'
+        mm = Fr(qmis[1][0], qmis[1][1])
+        if isinstance(v, str) or not V.close(v, mm, scale=0.0):
+            return (f'misfit (query after operation history): impl {v!r} model {float(mm)!r} '
+                    '(model = half sum over the CURRENTLY finite observations)')
+        return None
+    return 'unknown query ' + str(w)
+
+
 def brief_case(case, upto=None):
     c = {k: case[k] for k in ('shape', 'src_xyz', 'rec_xyz', 'rec_rel', 'freqs',
                               'observed', 'synthetic')}
@@ -912,7 +1089,7 @@ def compare_history(case, impl, states, outcomes, extras, ans):
     if len(tr) != len(case['ops']):
         return [{'what': 'model trace has wrong length', 'case': brief_case(case)}]
     first_bad = None
-    for n, ((tag, ek, sd, wdump), o) in enumerate(zip(tr, case['ops'])):
+    for n, ((tag, ek, sd, xinf, wdump), o) in enumerate(zip(tr, case['ops'])):
         msv = [m_survey(t) for t in wdump]
         mstate = (msv, alias_labels_model(msv))
         iout = outcomes[n]
@@ -933,10 +1110,18 @@ def compare_history(case, impl, states, outcomes, extras, ans):
                 what, state_diff = ('add_noise: entries that are NaN afterwards differ BY LABEL '
                                     f'(source, receiver, frequency): only impl {sorted(set(ci) - set(cm))[:4]}, '
                                     f'only model cut_mask {sorted(set(cm) - set(ci))[:4]}'), True
+        if what is None and (tag == 3 or iout[0] == 'query'):
+            what = diff_query(o, iout, tag, xinf)
         if what is None and states[n] is not None:
             d = diff_state(states[n], mstate)
             if d:
                 what, state_diff = d, True
+        if what is None and states[n] is not None:
+            im = [d_.get('memo') for d_ in states[n][0]]
+            mm = [None if m_ is None else m_[1] for m_ in xinf[5]]
+            if im != mm:
+                what = ('memoised finite mask (survey._isfinite) differs after the operation: '
+                        f'impl {im} model {mm}')
         if what is None and tag == 2 and extras[n] is not None:
             if sd is None:
                 b_, a_ = extras[n]['before'], extras[n]['after']
@@ -998,7 +1183,7 @@ def compare_history(case, impl, states, outcomes, extras, ans):
         try:
             tr_b = parse_term(ans[2])
             ok_b = was_state
-            for m, (_t, _e, _s, wdump) in enumerate(tr_b[:n + 1]):
+            for m, (_t, _e, _s, _x, wdump) in enumerate(tr_b[:n + 1]):
                 if states[m] is None:
                     continue
                 msv = [m_survey(t) for t in wdump]
@@ -1025,6 +1210,12 @@ def history_key(case):
         if k == 'select':
             return (k, o['s'], str(o['sources']), str(o['receivers']), str(o['frequencies']),
                     o['remove_empty'])
+        if k == 'query':
+            return (k, o['s'], o['what'])
+        if k == 'set_obs':
+            return (k, o['s'], o.get('how'))
+        if k == 'obs_from_syn':
+            return (k, o['s'])
         return (k, o['s'], o['kind'])
     return (tuple(case['shape']), tuple(opk(o) for o in case['ops']))
 
@@ -1073,7 +1264,25 @@ def fixed_cases():
                           'remove_empty': False},
                          {'op': 'set_re', 's': 1, 'val': {'arr': [[[0.5]]]}, 'layout': 'arr-one'},
                          dict(an, s=1, min_amplitude=None)])
-    return [h1, h2, h3, h4]
+    # round 6: the user looks at the finite data, then the NaN pattern changes, then misfit
+    full = [[[[1.0, 1.0], [4.0, 0.0]], [[0.25, 0.0], [3.0, 4.0]], [[1.0, -1.0], [2.0, -2.0]]],
+            [[[0.5, 0.0], [8.0, 1.0]], [[1.0, 0.0], [0.0, 5.0]], [[-2.0, 0.5], [1.5, 0.0]]]]
+    q = {'op': 'query', 's': 0}
+    h5 = dict(base, ops=[{'op': 'set_nf', 's': 0, 'val': {'arr': [[[0.5, 2.0]]]}, 'layout': 'arr-freq',
+                          'ctor': True},
+                         {'op': 'set_re', 's': 0, 'val': 0.125, 'layout': 'scalar', 'ctor': True},
+                         dict(q, what='finite_data'),
+                         {'op': 'set_obs', 's': 0, 'val': full, 'how': 'fill'},
+                         dict(q, what='count'), dict(q, what='misfit'), dict(q, what='isfinite')])
+    h6 = dict(base, ops=[{'op': 'set_nf', 's': 0, 'val': 0.5, 'layout': 'scalar', 'ctor': True},
+                         {'op': 'obs_from_syn', 's': 0},
+                         dict(q, what='isfinite'),
+                         dict(an, s=0, min_offset=600.0, min_amplitude=None),
+                         dict(q, what='count'), dict(q, what='misfit'),
+                         {'op': 'dict', 's': 0, 'kind': 0}, dict(q, s=1, what='finite_data'),
+                         {'op': 'set_obs', 's': 1, 'val': full, 'how': 'fill'},
+                         dict(q, what='misfit'), dict(q, s=1, what='misfit')])
+    return [h1, h2, h3, h4, h5, h6]
 
 
 def run_fixed(case):
@@ -1176,6 +1385,125 @@ def run_label_histories(rng, thorough):
     return runs
 
 
+FINITE_ROUTES = ('fill', 'move', 'more', 'obs_from_syn', 'add_noise_offset', 'add_noise_amplitude',
+                 'obs_from_syn+add_noise_offset')
+
+
+def an_cut_op(rng, case, sv, s, kind):
+    """an add_noise call whose offset / amplitude cut removes some but (if possible) not all data"""
+    o = {'op': 'add_noise', 's': s, 'min_offset': 0.0, 'max_offset': None, 'min_amplitude': None,
+         'add_to': 'observed', 'ntype': rng.choice(['white_noise', 'gaussian_uncorrelated']),
+         'mean_noise': 0.0, 'explicit_defaults': False}
+    if kind == 'offset':
+        offs = sorted({math.sqrt(float(v)) for v in offsets2(case).values()})
+        mids = [math.floor((a + b) / 2) + 0.5 for a, b in zip(offs[:-1], offs[1:]) if b - a > 2]
+        if mids and rng.random() < 0.5:
+            o['min_offset'] = float(rng.choice(mids))
+        elif mids:
+            o['max_offset'] = float(rng.choice(mids))
+        else:
+            o['min_offset'] = float(math.floor(offs[0]) + 1)
+    else:
+        d = np.abs(np.asarray(sv.data.observed.data))
+        fin = d[np.isfinite(d)]
+        med = float(np.median(fin)) if fin.size else 1.0
+        o['min_amplitude'] = 2.0 ** math.ceil(math.log2(med)) if med > 0 else 1.0
+    return o
+
+
+def run_finite_histories(rng, thorough):
+    """Histories about the finite mask: observed data with gaps -> a public query that
+    looks at the finite data (isfinite / finite_data) -> the NaN pattern of data.observed
+    changes through EVERY documented route (explicit assignment filling / moving /
+    adding gaps, compute(observed=True), add_noise offset cut, add_noise amplitude cut)
+    -> size / count / isfinite / finite_data / misfit queries; twice per history, with
+    an aliasing or copied second survey in between.  Routes x first query are
+    enumerated, everything else is drawn from rng."""
+    runs = []
+    reps = 4 if thorough else 1
+    for rep in range(reps):
+        for ri, route in enumerate(FINITE_ROUTES):
+            for q0 in ('isfinite', 'finite_data', None):
+                # control histories without a first query: every third route (quick), all (thorough)
+                if q0 is None and (rep % 2 or (not thorough and ri % 3)):
+                    continue
+                while True:
+                    case = gen_case(rng, False, thorough)
+                    flat = [x for p_ in case['observed'] for r_ in p_ for x in r_]
+                    nn = sum(x is None for x in flat)
+                    if len(flat) >= 2 and 0 < nn < len(flat):
+                        break
+                # a fully finite synthetic data set in two of three cases (so that compute(observed=True)
+                # fills every gap), the drawn one (5% NaN) otherwise
+                if rng.random() < 0.67:
+                    case['synthetic'] = [[[x if x is not None else _dy_nz(rng) for x in r_] for r_ in p_]
+                                         for p_ in case['synthetic']]
+                v, lay = gen_setting(rng, case['shape'], False)
+                if v is None:
+                    v, lay = K.dy_pos(rng), 'scalar'
+                case['ops'].append({'op': 'set_nf', 's': 0, 'val': v, 'layout': lay, 'ctor': True})
+                if rng.random() < 0.5:
+                    v, lay = gen_setting(rng, case['shape'], False)
+                    case['ops'].append({'op': 'set_re', 's': 0, 'val': v, 'layout': lay, 'ctor': True})
+                impl = Impl(case)
+                states, outcomes, extras = [], [], []
+                for n in range(len(case['ops'])):
+                    if n < impl.ctor_ops:
+                        outcomes.append(('ok',))
+                        extras.append(None)
+                        states.append(impl.dump() if n == impl.ctor_ops - 1 else None)
+                    else:
+                        out, extra = impl.apply(case['ops'][n])
+                        outcomes.append(out)
+                        extras.append(extra)
+                        states.append(impl.dump())
+
+                def do(o):
+                    case['ops'].append(o)
+                    out, extra = impl.apply(o)
+                    outcomes.append(out)
+                    extras.append(extra)
+                    states.append(impl.dump())
+
+                def change(route_, s_):
+                    sv = impl.surveys[s_]
+                    for part in route_.split('+'):
+                        if part in ('fill', 'move', 'more'):
+                            do(gen_set_obs(rng, sv, s_, part))
+                        elif part == 'obs_from_syn':
+                            do({'op': 'obs_from_syn', 's': s_})
+                        else:
+                            do(an_cut_op(rng, case, sv, s_, part.split('_')[-1]))
+                if q0 is not None:
+                    do({'op': 'query', 's': 0, 'what': q0})
+                if rng.random() < 0.3:
+                    do({'op': 'query', 's': 0, 'what': 'misfit'})
+                change(route, 0)
+                do({'op': 'query', 's': 0, 'what': rng.choice(['size', 'count'])})
+                do({'op': 'query', 's': 0, 'what': 'misfit'})
+                do({'op': 'query', 's': 0, 'what': rng.choice(['isfinite', 'finite_data'])})
+                # a second survey: shares the arrays (from_dict(to_dict())), a copy, or a selection
+                t = rng.random()
+                if t < 0.35:
+                    do({'op': 'dict', 's': 0, 'kind': 0})
+                elif t < 0.6:
+                    do({'op': 'dict', 's': 0, 'kind': 1})
+                else:
+                    do({'op': 'select', 's': 0, 'sources': None, 'receivers': None, 'frequencies': None,
+                        'remove_empty': rng.random() < 0.5, 'default_rm': False, 'as_str': False,
+                        'kinds': {}})
+                s2 = len(impl.surveys) - 1
+                do({'op': 'query', 's': s2, 'what': rng.choice(['isfinite', 'finite_data', 'count'])})
+                route2 = rng.choice(FINITE_ROUTES)
+                change(route2, rng.choice([0, s2]))
+                for s_ in (0, s2):
+                    do({'op': 'query', 's': s_, 'what': 'count'})
+                    do({'op': 'query', 's': s_, 'what': 'misfit'})
+                case['finite_route'] = route + ' / ' + route2
+                runs.append((case, impl, states, outcomes, extras))
+    return runs
+
+
 def correspondence(ctx):
     rng = ctx.rng
     nhist = 400 if ctx.thorough else 72
@@ -1191,9 +1519,10 @@ def correspondence(ctx):
                 runs.append(run_fixed(json.load(open(os.path.join(corpus_dir, fn)))))
     runs += run_label_histories(rng, ctx.thorough)
     n_label_hist = len(runs)
+    runs += run_finite_histories(rng, ctx.thorough)
     for h in range(nhist):
         malformed = (h % 6 == 5)
-        nops = rng.randint(3, 9)
+        nops = rng.randint(4, 10)
         runs.append(run_history(rng, nops, malformed, ctx.thorough))
     texts = []
     for f0 in range(0, len(runs), per_file):
@@ -1202,11 +1531,13 @@ def correspondence(ctx):
             case, impl, states, outcomes, extras = runs[h]
             body += coq_history(f"h{h}", case, extras)
         texts.append((f"c13_h_{f0 // per_file}", body))
-    res = V.coq_eval_many(texts)
+    res = V.coq_eval_many(texts, timeout=2400)      # generous: only matters on a heavily loaded machine
     dis, seen, nontriv = [], set(), set()
     hist = {'ops': {}, 'shapes': {}, 'layouts': {}, 'outcomes': {}, 'malformed_histories': 0,
             'ntype': {}, 'add_noise_min_amplitude': {}, 'select_name_lists': {},
-            'receiver_types': {}, 'offset_cuts_on_mixed_unsorted_receivers': 0}
+            'receiver_types': {}, 'offset_cuts_on_mixed_unsorted_receivers': 0,
+            'queries': {}, 'set_obs': {}, 'finite_mask_routes': {},
+            'misfit_queries_after_nan_pattern_change_following_a_mask_query': 0}
     evaluations = 0
     for f0 in range(0, len(runs), per_file):
         rc, out = res[f"c13_h_{f0 // per_file}"]
@@ -1236,6 +1567,22 @@ def correspondence(ctx):
                 hist['offset_cuts_on_mixed_unsorted_receivers'] += sum(
                     1 for o in case['ops'] if o['op'] == 'add_noise'
                     and (o['min_offset'] > 0 or o['max_offset'] is not None))
+            if case.get('finite_route'):
+                for rt_ in case['finite_route'].split(' / '):
+                    hist['finite_mask_routes'][rt_] = hist['finite_mask_routes'].get(rt_, 0) + 1
+            looked, changed = set(), set()
+            for o, oc in zip(case['ops'], outcomes):
+                if o['op'] == 'query':
+                    hist['queries'][o['what']] = hist['queries'].get(o['what'], 0) + 1
+                    if o['what'] in ('isfinite', 'finite_data'):
+                        looked.add(o['s'])
+                    if o['what'] == 'misfit' and o['s'] in changed:
+                        hist['misfit_queries_after_nan_pattern_change_following_a_mask_query'] += 1
+                elif o['op'] == 'set_obs':
+                    hist['set_obs'][o.get('how')] = hist['set_obs'].get(o.get('how'), 0) + 1
+                if o['op'] in ('set_obs', 'obs_from_syn', 'add_noise') and o['s'] in looked \
+                        and oc[0] != 'err':
+                    changed.add(o['s'])
             for o, oc in zip(case['ops'], outcomes):
                 hist['ops'][o['op']] = hist['ops'].get(o['op'], 0) + 1
                 if 'layout' in o:
@@ -1278,7 +1625,17 @@ def correspondence(ctx):
                 "and explicit std, EVERY ordered non-empty sub-list of the sources and of the receivers "
                 "(thorough: and their products) and lists with a repeated name, each followed by a second "
                 "selection from the result (composition). States are compared BY LABEL (every array as a "
-                "map from (source, receiver, frequency) names to values) and positionally",
+                "map from (source, receiver, frequency) names to values) and positionally. "
+                "Round 6: the history alphabet also has read-only QUERIES between the data changes "
+                "(survey.isfinite, finite_data(), size, count, Simulation.misfit on a stub whose `data` IS "
+                "survey.data as in the real class) and two more routes that change the NaN pattern of "
+                "data.observed (`data.observed[...] = array` filling / moving / adding gaps, and the real "
+                "Simulation.compute(observed=True, add_noise=False)); every answer and the memoised mask "
+                "found on the survey object are compared with the model after every operation; PLUS a "
+                "finite-mask stream enumerating (route of NaN-pattern change) x (first query: isfinite / "
+                "finite_data / none), each history: query -> change -> size|count, misfit, isfinite|"
+                "finite_data -> second survey (shared / copy / selection) -> query -> second change on either "
+                "survey -> count + misfit on both",
         'samples': samples,
         'traces_validated_against_impl': len(runs),
         'histogram': hist,
@@ -1344,6 +1701,11 @@ def property_on_history(case):
                         'history': brief_case(case, n + 1), 'op_index': n, 'operation': o,
                         'observed': out[1], 'required': 'accepted (documented shape ({1;nsrc},{1;nrec},{1;nfreq}))',
                         'what': f"{o['op']} with a valid {o.get('layout')} value raised {out[1]}"}
+            if o['op'] == 'query' and o['what'] == 'misfit' and out[0] == 'query':
+                h = check_misfit_value(impl.surveys[o['s']], o['s'], out[1])
+                if h:
+                    h.update({'history': brief_case(case, n + 1), 'op_index': n, 'operation': o})
+                    return h
             if o['op'] == 'add_noise' and out[0] == 'noise':
                 h = check_cuts(impl, case, o, extra, snaps[o['s']])
                 if h:
@@ -1499,6 +1861,53 @@ def check_selection(impl, o, parent_data, parent_keys, parent_snap, new):
     return None
 
 
+def ref_std(s):
+    """documented standard deviation from the CURRENT settings and data (numpy, independent
+    of emg3d's getter and of the Coq model); None if nothing is set"""
+    d = s.data.observed.data
+    nf, re_ = s.noise_floor, s.relative_error
+    if 'standard_deviation' in s.data.keys():
+        return np.asarray(s.data['standard_deviation'].data, float)
+    if nf is None and re_ is None:
+        return None
+    want = np.zeros(d.shape)
+    with warnings.catch_warnings():
+        warnings.simplefilter('ignore')
+        if nf is not None:
+            want = want + np.broadcast_to(np.asarray(nf, float), d.shape) ** 2
+        if re_ is not None:
+            want = want + (np.broadcast_to(np.asarray(re_, float), d.shape) * np.abs(d)) ** 2
+        return np.sqrt(want)
+
+
+def check_misfit_value(s, si, got):
+    """`got` = what Simulation.misfit returned for survey `s` in its CURRENT state; required:
+    0.5 * sum over the currently finite observations of |syn - obs|^2 / std^2."""
+    if 'synthetic' not in s.data.keys():
+        return None
+    std = ref_std(s)
+    d = np.asarray(s.data.observed.data)
+    syn = np.asarray(s.data['synthetic'].data)
+    if std is None:
+        if got == 'ValueError':
+            return None
+        return {'signature': 'C13: misfit without any standard deviation', 'survey': si,
+                'observed': got, 'required': 'ValueError', 'what': 'misfit needs a standard deviation'}
+    fin = np.isfinite(d)
+    if np.any(std[fin] == 0.0):
+        return None           # std = 0: outside the domain
+    with warnings.catch_warnings():
+        warnings.simplefilter('ignore')
+        t = np.abs(syn[fin] - d[fin]) ** 2 / std[fin] ** 2
+    ref = float(np.nansum(t)) / 2       # a NaN synthetic datum is skipped by the NaN-skipping sum
+    if isinstance(got, str) or not math.isclose(got, ref, rel_tol=1e-7, abs_tol=1e-300):
+        return {'signature': 'C13: misfit differs from 1/2 sum over the currently finite observations '
+                             'of |syn-obs|^2/std^2', 'survey': si, 'observed': got, 'required': ref,
+                'finite_observations_now': int(fin.sum()),
+                'what': 'misfit formula on the current observed / synthetic / std arrays'}
+    return None
+
+
 def check_std_misfit(s, si):
     emg3d = _emg3d()
     with warnings.catch_warnings():
@@ -1533,14 +1942,13 @@ def check_std_misfit(s, si):
         syn = s.data['synthetic'].data
 
         def misfit_of(sv):
-            stub = types.SimpleNamespace(_misfit=None, _computed=True, data=sv.data.copy(), survey=sv)
-            return float(emg3d.Simulation.misfit.fget(stub))
+            return impl_misfit(sv)
         if np.any(want[np.isfinite(d)] == 0.0):
             return None       # std = 0 (zero datum, relative error only): outside the domain
         terms = np.abs(syn - d) ** 2 / want ** 2
         ref = float(np.nansum(terms)) / 2
-        got_m = misfit_of(s)
-        if not math.isclose(got_m, ref, rel_tol=1e-7, abs_tol=1e-300):
+        got_m = impl_misfit_enum(s)
+        if isinstance(got_m, str) or not math.isclose(got_m, ref, rel_tol=1e-7, abs_tol=1e-300):
             return {'signature': 'C13: misfit differs from 1/2 sum |syn-obs|^2/std^2', 'survey': si,
                     'observed': got_m, 'required': ref, 'what': 'misfit formula'}
         # permutation invariance: reverse every axis through select
